@@ -6,7 +6,7 @@ id="$1"; m="$2"; w=/tmp/mut/$id; o=$w/OUT/$m
 export CARGO_NET_OFFLINE=true CARGO_TARGET_DIR=$w/target
 cd "$w" || exit 2
 git checkout -q -- . ; git clean -fdq -- src tests
-demo=$(python3 -c "import json;print(json.load(open('$o/meta.json'))['demo_path'])")
+demo=$(python3 -c "import json;print(json.load(open('$o/meta.json'))['demo_path'].split()[0])")
 install_demo() {
     for f in "$o"/demo/*; do
         case "$f" in *register.diff) git apply "$f" || echo "register.diff failed";; *.rs) mkdir -p "$(dirname "$w/$demo")"; cp "$f" "$w/$(dirname "$demo")/$(basename "$f")";; esac
